@@ -93,7 +93,7 @@ def make_case(rng, fault, collinear=None):
         seg = {"length": L, "thickness": [t0, t1] if t1 != t0 or rng.random() < 0.5 else [t0], "angle": [a0, a1] if a1 != a0 or rng.random() < 0.5 else [a0]}
         tt = [0, 0]
         if not fault and rng.random() < 0.3:
-            tt = [rng.choice([0, 10e3, -20e3]), rng.choice([0, 5e3])]; seg["top truncation"] = tt
+            tt = [rng.choice([0, 10e3, -20e3, -30e3]), rng.choice([0, 5e3, 20e3])]; seg["top truncation"] = tt
         sj.append(seg); segs.append((L, math.radians(a0), math.radians(a1), t0, t1, tt[0], tt[1]))
         a_prev = a1
     az = rng.uniform(0, 2 * math.pi); ln = rng.choice([300e3, 900e3, 2000e3])
@@ -146,6 +146,24 @@ def oracle(seed, tier):
         for pi in range(npts + (6 if m is not None else 0)):
             al = rng.uniform(0.03, 0.97)
             u = rng.uniform(-150e3, 500e3); v = rng.uniform(0, 450e3)
+            if pi < npts and pi % 3 == 2:
+                # every third point: 1.5 km inside or outside a membership boundary (top truncation / thickness, interpolated down the segment; half thickness for faults)
+                pcs = pieces(geo)
+                ki = rng.randrange(len(pcs))
+                (u0, v0, a0, a1, L, s0) = pcs[ki]
+                t = rng.uniform(0.05, 0.95) * L
+                sg = segs[ki]; fr = t / L
+                th = sg[3] + fr * (sg[4] - sg[3]); tt = sg[5] + fr * (sg[6] - sg[5])
+                bnd = rng.choice([th / 2, -th / 2]) if fault else rng.choice([tt, tt, th])
+                dd = bnd + rng.choice([-1.5e3, 1.5e3])
+                if abs(a0 - a1) < 1e-12:
+                    tha = a0; fu, fv = u0 + t * math.cos(a0), v0 + t * math.sin(a0)
+                else:
+                    k = (a1 - a0) / L; R = 1.0 / k; tha = a0 + k * t
+                    fu, fv = u0 - R * math.sin(a0) + R * math.sin(tha), v0 + R * math.cos(a0) - R * math.cos(tha)
+                u, v = fu - dd * math.sin(tha), fv + dd * math.cos(tha)
+                if v < 0:
+                    u = rng.uniform(-150e3, 500e3); v = rng.uniform(0, 450e3)
             if pi >= npts:
                 # deterministic probes just before the interior coordinate, a little below the start of the surface
                 al = m * (1 - [0.01, 0.02, 0.03, 0.04, 0.05, 0.06][pi - npts])
